@@ -1,15 +1,15 @@
 SPECIFICATION Spec
 CONSTANTS
   MaxGuards = 1
-  MaxActs = 3
+  MaxActs = 1
   Engines = 1
   RefLevel = "small"
   Places = {"global"}
-  Derive = TRUE
+  Derive = FALSE
   Pair = FALSE
-  Threads = FALSE
-  Defects = {"shared_stack"}
+  Threads = TRUE
+  Defects = {"no_wait"}
   EmitCases = FALSE
-INVARIANTS InvNoResidue
+INVARIANTS InvNoInflight
 CHECK_DEADLOCK FALSE
 VIEW DesignView
